@@ -427,6 +427,23 @@ error: {:?}", out.replay(), e)),
 				self.cert(&p, None, "ed25519", false);
 			}
 		}
+		// byte strings of every length 0..=9 (whole and broken code units) through both byte-level
+		// constructors
+		for len in 0..=9usize {
+			let b32: Vec<u8> = [0u8, 0, 0, 0x41, 0, 0, 0x20, 0xac, 0, 1].iter().cloned().take(len).collect();
+			let b16: Vec<u8> = [0u8, 0x41, 0x20, 0xac, 0, 0x42, 0, 0x43, 0, 0x44].iter().cloned().take(len).collect();
+			for v in [DnV::Universal(b32), DnV::Bmp(b16)] {
+				offered += 1;
+				if v.real().is_some() {
+					admitted += 1;
+					let mut p = PCert::empty();
+					p.serial = Some(vec![5]);
+					p.kid = Kid::Pre(vec![1; 20]);
+					p.dn = Dn(vec![(DnT::Cn, v)]);
+					self.cert(&p, None, "ed25519", false);
+				}
+			}
+		}
 		self.rep.add("string_kind_offered", offered as u64);
 		self.rep.add("string_kind_admitted", admitted as u64);
 		self.rep.exhaustive.push("every ASCII character plus 15 boundary scalars x 5 restricted string kinds: each admitted value written into a certificate and judged by the canonicity checker".into());
